@@ -24,8 +24,12 @@ type solverRes struct {
 }
 
 func runSolver(name string, script string, timeout time.Duration) solverRes {
+	return runSolverCtx(context.Background(), name, script, timeout)
+}
+
+func runSolverCtx(parent context.Context, name string, script string, timeout time.Duration) solverRes {
 	var cmd *exec.Cmd
-	ctx, cancel := context.WithTimeout(context.Background(), timeout+2*time.Second)
+	ctx, cancel := context.WithTimeout(parent, timeout+2*time.Second)
 	defer cancel()
 	secs := int(timeout.Seconds())
 	if secs < 1 {
@@ -60,6 +64,8 @@ func runSolver(name string, script string, timeout time.Duration) solverRes {
 		res.status = "sat"
 	case first == "unknown":
 		res.status = "unknown"
+	case parent.Err() != nil:
+		res.status = "cancelled"
 	case first == "timeout" || ctx.Err() != nil:
 		res.status = "timeout"
 	default:
@@ -117,44 +123,61 @@ func decide(o *obligation, opts solveOpts) {
 			}
 		}
 	}
-	first := opts.timeout
-	if !opts.twoVotes && !o.ExpectSat && first > 6*time.Second {
-		first = 6 * time.Second // what z3 does not decide in a few seconds it rarely decides in ten
-	}
-	r := runSolver("z3-new", script, first)
-	all = append(all, r)
 	votes := 0
-	if r.status == want {
-		votes++
-	}
-	needMore := r.status != "unsat" && r.status != "sat"
-	if o.ExpectSat && !opts.twoVotes {
-		needMore = false
-	}
-	if opts.twoVotes && r.status == want && !o.ExpectSat {
-		needMore = true
-	}
-	if needMore {
-		var wg sync.WaitGroup
-		rs := make([]solverRes, 2)
-		for i, s := range []string{"z3", "cvc5"} {
-			wg.Add(1)
-			go func(i int, s string) {
-				defer wg.Done()
-				to := opts.timeout
-				if s == "cvc5" && !opts.twoVotes {
-					// cvc5 decides a handful of frame obligations that z3 does not (it finds the needed equality case
-					// split); it needs about as long as the base timeout for them, so it gets a wide margin
-					to = 3 * opts.timeout
-				}
-				rs[i] = runSolver(s, script, to)
-			}(i, s)
+	if !opts.twoVotes && !o.ExpectSat {
+		// quick tier: the three solvers race; the first definite answer ends the race. cvc5 decides a handful of frame
+		// obligations that z3 does not (it finds the needed equality case split) and needs about the base timeout for
+		// them, so it gets a wide margin.
+		ctx, cancel := context.WithCancel(context.Background())
+		type job struct {
+			name string
+			to   time.Duration
 		}
-		wg.Wait()
-		all = append(all, rs...)
-		for _, x := range rs {
-			if x.status == want {
-				votes++
+		jobs := []job{{"z3-new", opts.timeout}, {"cvc5", 3 * opts.timeout}, {"z3", opts.timeout}}
+		resCh := make(chan solverRes, len(jobs))
+		for _, j := range jobs {
+			go func(j job) { resCh <- runSolverCtx(ctx, j.name, script, j.to) }(j)
+		}
+		for range jobs {
+			r := <-resCh
+			if r.status == "cancelled" {
+				continue
+			}
+			all = append(all, r)
+			if r.status == "unsat" || r.status == "sat" {
+				cancel()
+			}
+		}
+		cancel()
+	} else {
+		r := runSolver("z3-new", script, opts.timeout)
+		all = append(all, r)
+		if r.status == want {
+			votes++
+		}
+		needMore := r.status != "unsat" && r.status != "sat"
+		if o.ExpectSat && !opts.twoVotes {
+			needMore = false
+		}
+		if opts.twoVotes && r.status == want && !o.ExpectSat {
+			needMore = true
+		}
+		if needMore {
+			var wg sync.WaitGroup
+			rs := make([]solverRes, 2)
+			for i, s := range []string{"z3", "cvc5"} {
+				wg.Add(1)
+				go func(i int, s string) {
+					defer wg.Done()
+					rs[i] = runSolver(s, script, opts.timeout)
+				}(i, s)
+			}
+			wg.Wait()
+			all = append(all, rs...)
+			for _, x := range rs {
+				if x.status == want {
+					votes++
+				}
 			}
 		}
 	}
